@@ -377,9 +377,10 @@ class MappingMethod(DeserializationMethod):
         items: dict = {}
         for key, value in data.items():
             try:
-                items[self.key_method.deserialize(key)] = self.value_method.deserialize(
-                    value
-                )
+                # key first, as MappingCheckOnly (the right-hand side of an assignment
+                # is evaluated before the subscript)
+                item_key = self.key_method.deserialize(key)
+                items[item_key] = self.value_method.deserialize(value)
             except ValidationError as err:
                 item_errors = set_child_error(item_errors, key, err)
         validate_constraints(data, self.constraints, item_errors)
